@@ -466,3 +466,23 @@ Proof.
   destruct (mk_router_spec _ _ _ Hmr) as (f & rest & E & _ & P4 & P6 & _). rewrite E.
   destruct a; simpl; assumption.
 Qed.
+
+(* ---------- address families: ip / ipv6 prefix-list namespaces ---------- *)
+(* a prefix-list line is written under the keyword (ip / ipv6) of the family of its prefix *)
+Theorem lines_family S c a nm sq pm q : render S = Some c -> In (IPl a nm sq pm (Some q)) (items c) -> pfx_afi q = a.
+Proof.
+  intros Hr Hit. destruct (render_routers _ _ Hr) as (rs & Hc & _).
+  destruct (block_of_item _ _ _ _ Hr Hc Hit) as (n & Hn & Hb). simpl in Hb.
+  apply block_ipl in Hb as [(y & _ & -> & E & _)|(_ & _ & E & _)]; [|discriminate]. inversion E; reflexivity.
+Qed.
+
+(* every match clause `match ip|ipv6 address prefix-list L` of the configuration refers to a list that
+   is defined under that keyword, and all prefixes of that list have that family: a route of family a is
+   only ever compared with lists holding advertised prefixes of family a *)
+Theorem match_family S c nm sq pm m st nx a name : render S = Some c ->
+  In (IRm nm sq pm m st nx) (items c) -> In (a, name) m ->
+  pl_lines c a name <> [] /\ forall pm' q, In (pm', Some q) (pl_lines c a name) -> pfx_afi q = a.
+Proof.
+  intros Hr Hit Hm. split; [eapply lists_defined; eassumption|].
+  intros pm' q Hl. apply pl_lines_in in Hl as (sq' & Hl). eapply lines_family; eassumption.
+Qed.
